@@ -182,9 +182,33 @@ func c17prop(r *simkit.Run) {
 		}
 		return insts[rapid.IntRange(0, len(insts)-1).Draw(rt, label)]
 	}
+	// other users of the package in the process: counters of their own, with bucket counts and resolutions of their
+	// own, built and used while the counters under test live (by draw; none of them is ever appended to ours)
+	var others []*memmetrics.RollingCounter
+	neighbourOps := 0
+	opKinds := []string{"inc", "inc", "inc", "read", "read", "step", "step", "reset", "clone", "append"}
+	if rapid.IntRange(0, 2).Draw(rt, "neighbour-counters") == 0 {
+		opKinds = append(opKinds, "neighbour")
+		if rapid.Bool().Draw(rt, "neighbour-from-the-start") {
+			if o, err := memmetrics.NewCounter(rapid.IntRange(1, 20).Draw(rt, "neighbour-buckets"), drawResolution(rt)); err == nil {
+				others = append(others, o)
+			}
+		}
+	}
 	nops := rapid.IntRange(3, deep(120, 600)).Draw(rt, "ops")
 	for i := 0; i < nops; i++ {
-		switch rapid.SampledFrom([]string{"inc", "inc", "inc", "read", "read", "step", "step", "reset", "clone", "append"}).Draw(rt, "op") {
+		switch rapid.SampledFrom(opKinds).Draw(rt, "op") {
+		case "neighbour":
+			neighbourOps++
+			if k := rapid.IntRange(0, 3).Draw(rt, "neighbour-op"); k == 0 || len(others) == 0 {
+				if o, err := memmetrics.NewCounter(rapid.IntRange(1, 20).Draw(rt, "neighbour-buckets"), drawResolution(rt)); err == nil {
+					others = append(others, o)
+				}
+			} else if o := others[rapid.IntRange(0, len(others)-1).Draw(rt, "which-neighbour")]; k == 1 {
+				_ = o.Count()
+			} else {
+				o.Inc(rapid.IntRange(0, 5).Draw(rt, "neighbour-v"))
+			}
 		case "inc":
 			v := rapid.IntRange(0, 5).Draw(rt, "v")
 			if ratioMode {
@@ -320,6 +344,7 @@ func c17prop(r *simkit.Run) {
 	r.ProbeN("multi-window-gap", gaps)
 	r.ProbeN("clone-kept-and-used-later", keptClones)
 	r.ProbeN("append", appends)
+	r.ProbeN("neighbour-counter-built-or-used", neighbourOps)
 	r.ProbeN("time-passed-between-clock-reads", ticks)
 	if res != time.Second {
 		r.Probe("resolution!=1s")
